@@ -484,7 +484,7 @@ func runR03_6(c *Ctx, r *R) {
 	// constructor provenance of queue-typed struct fields
 	type prov struct {
 		unbounded, bounded int
-		other             []string
+		other              []string
 	}
 	fields := map[*types.Var]*prov{}
 	isQueue := func(t types.Type) bool { return typeIs(t, bytequeuePath, "Queue") }
